@@ -37,6 +37,8 @@ pub struct Meta15 {
 struct Layout {
     /// file name -> (world path, how it is passed: 0 source, 1 explicit reference, 2 through the reference directory)
     files: Vec<(String, String, u8)>,
+    /// index of a file that is listed a second time (as "./path") right after the position given
+    duplicate: Option<(usize, usize)>,
 }
 
 fn perturb(rng: &mut Rng, sim: &Sim) -> Sim {
@@ -103,6 +105,31 @@ fn build(layout: &Layout, program: &catalogue::Program, order: &[usize], dir_ord
             }
         }
     }
+    if let Some((file, after)) = layout.duplicate {
+        let (_, path, how) = &layout.files[file];
+        if *how != 2 {
+            // insert after the `after`-th listed argument of the same kind, wherever the permutation put things
+            let spelled = format!("./{path}");
+            let mut at = argv.len();
+            let mut seen = 0;
+            let mut i = 0;
+            while i < argv.len() {
+                let is_ref = argv[i] == "-R";
+                if seen == after {
+                    at = i;
+                    break;
+                }
+                seen += 1;
+                i += if is_ref { 2 } else { 1 };
+            }
+            if *how == 0 {
+                argv.insert(at, spelled);
+            } else {
+                argv.insert(at, spelled);
+                argv.insert(at, "-R".into());
+            }
+        }
+    }
     let mut names = Vec::new();
     for (path, _) in sim.generators.iter() {
         argv.push("-G".into());
@@ -139,7 +166,22 @@ fn permutations(n: usize) -> Vec<Vec<usize>> {
 
 pub fn generate(rng: &mut Rng, tier: &str) -> Case {
     let template = *rng.pick(catalogue::TEMPLATES);
-    let program = catalogue::instantiate(template, rng);
+    let mut program = catalogue::instantiate(template, rng);
+    // composite programs: two templates side by side (their modules differ), at most 4 files kept in total so that
+    // all permutations stay affordable; state that leaks from one file's processing into another's has more to hit
+    if rng.chance(1, 3) && program.files.len() <= 3 {
+        let mut other = catalogue::instantiate(*rng.pick(catalogue::TEMPLATES), rng);
+        if other.order_sensitive_known || program.order_sensitive_known {
+            // the recorded order dependence stays confined to its own template, so that its signature is exact
+            other.files.clear();
+        }
+        for f in other.files.into_iter() {
+            if program.files.len() >= 4 {
+                break;
+            }
+            program.files.push(catalogue::SrcFile { name: format!("x_{}", f.name), text: f.text });
+        }
+    }
     let n = program.files.len();
     // how each file is passed
     let mut files = Vec::new();
@@ -157,7 +199,8 @@ pub fn generate(rng: &mut Rng, tier: &str) -> Case {
         let path = if how == 2 { format!("refs/{}", f.name) } else { f.name.clone() };
         files.push((f.name.clone(), path, how));
     }
-    let layout = Layout { files };
+    let duplicate = if rng.chance(1, 4) { Some((rng.usize_below(n), rng.usize_below(n + 1))) } else { None };
+    let layout = Layout { files, duplicate };
     // generators: schedule-independent behaviours only
     let mut sim = Sim { hash_seed: rng.next_u64(), choice_seed: rng.next_u64(), ..Default::default() };
     let n_gens = 1 + rng.usize_below(2);
@@ -220,7 +263,7 @@ pub fn generate(rng: &mut Rng, tier: &str) -> Case {
     if n >= 2 {
         for _ in 0..(if tier == "quick" { 1 } else { 3 }) {
             let i = 1 + rng.usize_below(n - 1);
-            let mut l2 = Layout { files: layout.files.clone() };
+            let mut l2 = Layout { files: layout.files.clone(), duplicate: layout.duplicate };
             let how = l2.files[i].2;
             let new_how = match how {
                 0 => 1,
@@ -233,7 +276,8 @@ pub fn generate(rng: &mut Rng, tier: &str) -> Case {
             let n_dir2 = l2.files.iter().filter(|f| f.2 == 2).count();
             let d2: Vec<usize> = (0..n_dir2).collect();
             scenarios.push(build(&l2, &program, &identity, &d2, &gen_args, &sim, &format!("file {} moved between sources and references", l2.files[i].0), &extra));
-            relations.push("equivalent".to_owned());
+            // repeats are a within-list matter: moving a file to the other list legitimately changes them
+            relations.push("equivalent-moved".to_owned());
         }
     }
     let _ = Class::Clean;
@@ -266,6 +310,13 @@ fn observe(s: &Scenario, r: &RunResult) -> Obs {
         .filter(|d| !d.error)
         .map(|d| {
             let loc = d.location.rsplit('/').next().unwrap_or("");
+            if d.code == "DuplicateFile" {
+                // which of two spellings of one file counts as "the duplicate" legitimately depends on the order
+                // (and on the list the file is in after a move): identify the warning by the file it is about
+                let name = d.message.rsplit('/').next().unwrap_or("").trim_end_matches('\'').to_owned();
+                let name = name.rsplit('\'').next().unwrap_or("").to_owned();
+                return format!("DuplicateFile about {name}");
+            }
             format!("{}: {} @ {}", d.code, d.message, loc)
         })
         .collect();
@@ -364,7 +415,8 @@ pub fn compare(case: &Case, obs: &[Obs]) -> Vec<Violation> {
                     ));
                 }
             }
-            Some("equivalent") => {
+            Some(rel @ ("equivalent" | "equivalent-moved")) => {
+                let strip = |w: &Vec<String>| -> Vec<String> { if rel == "equivalent-moved" { w.iter().filter(|x| !x.starts_with("DuplicateFile")).cloned().collect() } else { w.clone() } };
                 if o.accepted != base.accepted {
                     let codes = if base.accepted { &o.compile_error_codes } else { &base.compile_error_codes };
                     let mut codes: Vec<String> = codes.clone();
@@ -384,7 +436,7 @@ pub fn compare(case: &Case, obs: &[Obs]) -> Vec<Violation> {
                     let missing: Vec<&String> = o.chunks.keys().filter(|k| !base.chunks.contains_key(*k)).collect();
                     vio.push(v("compiled-content-depends-on-input-order", format!("{what}: the encoded content of {differing:?} differs (files only in one request: {missing:?})")));
                 }
-                if o.warnings != base.warnings {
+                if strip(&o.warnings) != strip(&base.warnings) {
                     vio.push(v("warnings-depend-on-input-order", format!("{what}: base order {:?}, this order {:?}", base.warnings, o.warnings)));
                 }
             }
